@@ -802,10 +802,14 @@ class Interp:
             if s is not None:
                 self.used_summaries.add(func.key)
                 self.mode_stack.append("summary")
+                if not hasattr(self, "summary_names"):
+                    self.summary_names = []
+                self.summary_names.append(func.key.split(":")[1])
                 try:
                     return self.call_function(s, args, kwargs, force_body=True)
                 finally:
                     self.mode_stack.pop()
+                    self.summary_names.pop()
         if self.trace_calls is not None:
             self.trace_calls.append(func.key)
         self.reached_functions.add(func.key)
